@@ -366,6 +366,68 @@ def inline_new_locals(fn: ast.AST, ref_locals: Set[str], keep: Set[str] = frozen
     return done
 
 
+def drop_redundant_rebindings(fn: ast.AST) -> int:
+    """`v = E` where an earlier `v = E` of an enclosing block already holds (no store to v and nothing that can change E in between,
+    judged over everything textually between the two): the second binding is dropped. Arises when a helper that re-derives a local of
+    its caller is substituted back."""
+    done = 0
+    for _ in range(6):
+        order: List[ast.AST] = []
+        pos: Dict[int, int] = {}
+        last: Dict[int, int] = {}
+
+        def rec(n):
+            pos[id(n)] = len(order)
+            order.append(n)
+            for ch in ast.iter_child_nodes(n):
+                rec(ch)
+            last[id(n)] = len(order) - 1
+        rec(fn)
+        hit = None
+
+        def visit(block: List[ast.stmt], avail: Dict[str, ast.Assign], in_loop: bool):
+            nonlocal hit
+            avail = dict(avail)
+            for s in block:
+                if hit:
+                    return
+                if isinstance(s, ast.Assign) and len(s.targets) == 1 and isinstance(s.targets[0], ast.Name):
+                    v = s.targets[0].id
+                    prev = avail.get(v)
+                    if prev is not None and u(prev.value) == u(s.value) and not in_loop:
+                        names, attrs, impure, anycall = roots_attrs(s.value)
+                        heap = bool(attrs) or anycall or any(isinstance(x, ast.Subscript) for x in ast.walk(s.value))
+                        conts = containers_of(s.value)
+                        between = order[last[id(prev)] + 1:pos[id(s)]]
+                        if not impure and v not in names and not any(
+                                (isinstance(c, ast.Name) and isinstance(c.ctx, (ast.Store, ast.Del)) and (c.id == v or c.id in names))
+                                or clobbers(c, names, attrs, heap, conts) for c in between):
+                            hit = (block, s)
+                            return
+                    avail[v] = s
+                for f in ("body", "orelse", "finalbody"):
+                    b = getattr(s, f, None)
+                    if isinstance(b, list) and b and isinstance(b[0], ast.stmt):
+                        visit(b, avail, in_loop or isinstance(s, (ast.For, ast.While)))
+                if isinstance(s, ast.Try):
+                    for h in s.handlers:
+                        visit(h.body, avail, in_loop)
+                # a compound statement may rebind names: forget what it stores
+                if not isinstance(s, ast.Assign):
+                    for x in ast.walk(s):
+                        if isinstance(x, ast.Name) and isinstance(x.ctx, (ast.Store, ast.Del)):
+                            avail.pop(x.id, None)
+        visit(fn.body, {}, False)
+        if not hit:
+            break
+        block, s = hit
+        block.remove(s)
+        if not block:
+            block.append(ast.Pass())
+        done += 1
+    return done
+
+
 def _replace(root: ast.AST, old: ast.AST, new: ast.AST) -> bool:
     for p in ast.walk(root):
         for f, v in ast.iter_fields(p):
@@ -713,6 +775,10 @@ def _helper_kind(fn: ast.FunctionDef):
         return None
     if len(body) == 1 and isinstance(body[0], ast.Return) and body[0].value is not None:
         return ("expr", body)
+    # a decision list: `if c: return A` ... `return B`  is the expression `A if c else ... B`
+    folded = _fold_decision_list(body)
+    if folded is not None:
+        return ("expr", [ast.Return(value=folded)])
     rets = [n for s in body for n in ast.walk(s) if isinstance(n, ast.Return)]
     if all(r is body[-1] for r in rets):
         return ("proc", body)
@@ -726,6 +792,25 @@ def _helper_kind(fn: ast.FunctionDef):
                 and not any(isinstance(n, (ast.Try, ast.With)) for n in ast.walk(body[-2])):
             return ("search", body)
     return None
+
+
+def _fold_decision_list(body: List[ast.stmt]) -> Optional[ast.AST]:
+    if not body or not isinstance(body[-1], ast.Return) or body[-1].value is None:
+        return None
+    acc = body[-1].value
+    for st in reversed(body[:-1]):
+        if not isinstance(st, ast.If):
+            return None
+        if st.orelse:
+            e = _fold_decision_list(st.orelse)
+            if e is None:
+                return None
+            acc = e
+        b = _fold_decision_list(st.body)
+        if b is None:
+            return None
+        acc = ast.IfExp(test=st.test, body=b, orelse=acc)
+    return acc
 
 
 def _bind_args(fn: ast.FunctionDef, call: ast.Call, drop_first: bool) -> Optional[Dict[str, ast.AST]]:
